@@ -293,3 +293,84 @@ where
 {
     (f.table.as_ref() as &K::Type<K::I>).zero()
 }
+
+////////////////////////////////////////////////////////////////////////////////
+// Verification hooks (off by default)
+
+/// Thin public wrappers around the crate-private graph routines, so that external runtime
+/// monitors can compare them against reference implementations directly.
+/// Only compiled with the `verif-hooks` feature; adds no behaviour of its own.
+#[cfg(feature = "verif-hooks")]
+pub mod verif_hooks {
+    use crate::array::{ArrayKind, NaturalArray};
+    use crate::finite_function::FiniteFunction;
+    use crate::indexed_coproduct::IndexedCoproduct;
+    use crate::strict::hypergraph::Hypergraph;
+
+    type Adjacency<K> = IndexedCoproduct<K, FiniteFunction<K>>;
+
+    pub fn converse<K: ArrayKind>(r: &Adjacency<K>) -> Adjacency<K>
+    where
+        K::Type<K::I>: NaturalArray<K>,
+    {
+        super::converse(r)
+    }
+
+    pub fn operation_adjacency<K: ArrayKind, O, A>(h: &Hypergraph<K, O, A>) -> Adjacency<K>
+    where
+        K::Type<K::I>: NaturalArray<K>,
+    {
+        super::operation_adjacency(h)
+    }
+
+    pub fn node_adjacency<K: ArrayKind, O, A>(h: &Hypergraph<K, O, A>) -> Adjacency<K>
+    where
+        K::Type<K::I>: NaturalArray<K>,
+    {
+        super::node_adjacency(h)
+    }
+
+    pub fn node_adjacency_from_incidence<K: ArrayKind>(
+        s: &Adjacency<K>,
+        t: &Adjacency<K>,
+    ) -> Adjacency<K>
+    where
+        K::Type<K::I>: NaturalArray<K>,
+    {
+        super::node_adjacency_from_incidence(s, t)
+    }
+
+    pub fn indegree<K: ArrayKind>(adjacency: &Adjacency<K>) -> FiniteFunction<K>
+    where
+        K::Type<K::I>: NaturalArray<K>,
+    {
+        super::indegree(adjacency)
+    }
+
+    pub fn dense_relative_indegree<K: ArrayKind>(
+        adjacency: &Adjacency<K>,
+        f: &FiniteFunction<K>,
+    ) -> FiniteFunction<K>
+    where
+        K::Type<K::I>: NaturalArray<K>,
+    {
+        super::dense_relative_indegree(adjacency, f)
+    }
+
+    pub fn sparse_relative_indegree<K: ArrayKind>(
+        a: &Adjacency<K>,
+        f: &FiniteFunction<K>,
+    ) -> (FiniteFunction<K>, FiniteFunction<K>)
+    where
+        K::Type<K::I>: NaturalArray<K>,
+    {
+        super::sparse_relative_indegree(a, f)
+    }
+
+    pub fn kahn<K: ArrayKind>(adjacency: &Adjacency<K>) -> (K::Index, K::Type<K::I>)
+    where
+        K::Type<K::I>: NaturalArray<K>,
+    {
+        super::kahn(adjacency)
+    }
+}
